@@ -469,6 +469,14 @@ def run(rep: C.Report, tier: str) -> int:
     big = tier == "thorough"
     C.clean_gen(PROP)
     C.prove_and_audit(rep, PROP, THEOREMS)
+    try:      # supplementary theorems (the Gaussian pdf is normalised)
+        _a = C.coq_audit("C06_gaussnorm", ['GaussNorm_gauss_pdf_normalised', 'GaussNorm_gauss_pdf_total'], "IT.Properties.GaussNorm")
+        rep.obligation(True, 2)
+        rep.coverage["gaussnorm_audit"] = _a
+    except C.ProofFailure as _e:
+        rep.obligation(False, 2)
+        rep.violation("C06/proof", f"proof obligation no longer checks: {_e.what}",
+                      {"theorem_or_correspondence": _e.what, "log": _e.log[-1000:]}, False)
     r = C.rng_for(PROP, "cases")
     ur = C.rng_for(PROP, "uniform-draws")
 
